@@ -22,6 +22,12 @@ func (r RemoveIntersections) Process(schemas []*ast.Schema) ([]*ast.Schema, erro
 }
 
 func (r RemoveIntersections) processSchema(v *Visitor, schema *ast.Schema) (*ast.Schema, error) {
+	// aliases are resolved within their schema, and the objects to remove are
+	// known by their name only: what was found in a schema says nothing
+	// about the objects bearing the same name in the next ones.
+	clear(r.objectsToRemove)
+	clear(r.arraysToFix)
+
 	var foundErr error
 	schema.Objects.Iterate(func(key string, value ast.Object) {
 		if value.Type.IsRef() {
